@@ -251,6 +251,20 @@ class Target:
             return (v,) + self.blob_pure(x)
         return v
 
+    def loglike_args(self, x, scale, offset=0.0):
+        """Scalar callback taking extra positional/keyword arguments (log_likelihood_args / _kwargs); with
+        scale=1.0, offset=0.0 the value is bit-identical to loglike(x)."""
+        self.n_points += 1
+        v = self.logl_pure(x) * scale + offset
+        if self.nblobs:
+            return (v,) + self.blob_pure(x)
+        return v
+
+    def loglike_vec_args(self, X, scale, offset=0.0):
+        X = np.asarray(X)
+        self.n_points += len(X)
+        return np.array([self.logl_pure(row) * scale + offset for row in X])
+
     def loglike_vec(self, X):
         X = np.asarray(X)
         self.n_points += len(X)
